@@ -189,6 +189,14 @@ func loadEngine(repo, verif string, patterns []string) (*Engine, error) {
 			}
 		}
 	}
+	var fkeys []string
+	for k := range e.funcs {
+		fkeys = append(fkeys, k)
+	}
+	sort.Strings(fkeys)
+	if err := e.cs.expandTemplates(fkeys); err != nil {
+		return nil, err
+	}
 	return e, nil
 }
 
